@@ -22,6 +22,6 @@ import json,sys
 d=sys.argv[1]
 print(json.dumps({"Replace":{"/repo/"+f: d+"/tree/"+f for f in sys.argv[2:]}}))
 PY
-cd /verif && VERIF_OVERLAY=$D/overlay.json ./check $PROP $TIER > $D/out.log 2>&1; RC=$?
+cd /verif && VERIF_EVIDENCE_DIR=/verif/.work/evidence-seeds VERIF_OVERLAY=$D/overlay.json ./check $PROP $TIER > $D/out.log 2>&1; RC=$?
 grep -a -E "^VIOLATION|^KNOWN|quick:|thorough:|INCONCLUSIVE" $D/out.log | cut -c1-260
 echo "seed=$ID check=$PROP tier=$TIER rc=$RC (overlay)"
